@@ -688,3 +688,8 @@ func (d *deriver) run(formatter string) (*Derived, error) {
 func calleeOfField(prog *load.Program, typeName, field string) *types.Func {
 	return findFieldInitCallee(prog, typeName, field)
 }
+
+// CalleeOfField is calleeOfField for other packages of the checker.
+func CalleeOfField(prog *load.Program, typeName, field string) *types.Func {
+	return findFieldInitCallee(prog, typeName, field)
+}
